@@ -309,6 +309,8 @@ theorem inv2_step {cfg : Cfg} {s s' : State} (a : Action) (h1 : Inv1 s) (h : Inv
   case wWrite => unfold stepWWrite writeOne at hs; inv2_other h hs
   case wFlush => unfold stepWFlush at hs; inv2_other h hs
   case wWgDone => unfold stepWWgDone at hs; inv2_other h hs
+  case rArm => unfold stepRArm at hs; inv2_other h hs
+  case rChk => unfold stepRChk at hs; inv2_other h hs
   case rFrame => unfold stepRFrame at hs; inv2_other h hs
   case rErr => unfold stepRErr at hs; inv2_other h hs
   case rNil => unfold stepRNil at hs; inv2_other h hs
